@@ -77,6 +77,11 @@ Definition resp0 (st : N) : response := mkResp st None (Some 0) None None false 
 (* error responses carry a JSON error body; projected away (no length, no body) *)
 Definition resp_err (st : N) : response := mkResp st None None None None false None [] [].
 
+(* the error code of a 404 is observable to the client in one case: NAME_UNKNOWN (the
+   repository does not exist).  It travels as the body of the abstract error response. *)
+Definition name_unknown : str := b "NAME_UNKNOWN".
+Definition resp_name_unknown : response := mkResp 404 None None None None false None [] name_unknown.
+
 Definition opt_if {A} (c : bool) (x : A) : option A := if c then Some x else None.
 
 Definition slice (a bb : N) (s : str) : str :=
@@ -206,7 +211,7 @@ Section Registry.
       | HEAD, EBlob d => (g, blob_resp true d (lookup d (g_other g)) None)
       | _, _ => (g, resp_err 405)
       end
-    else (g, resp_err 404).
+    else (g, resp_name_unknown).
 End Registry.
 
 (* ---------- the request grammar of the distribution specification ---------- *)
